@@ -282,16 +282,16 @@ def c03_set(i, gen, tier, cap, path='all', signed=True, unsigned=True, tagx=''):
     small = gen == 'any' and i.bits <= 8
     if unsigned:
         add(H('C03', f"c03_u_main{g}{pth}_{i.tag}", 'c03_u_main', f"{i.n + 2}, {i.U}, {i.digit}, {i.n}, {gen}, {_x(i, False)}, {path}", tier=tier, cap=cap,
-              inst=i.label, funcs='BUint / and % (div_rem_unchecked, div_rem_digit, basecase_div_rem)', bound=bnd + '; postcondition n = q*d + r, r < d', core=small, mem_gb=28))
+              inst=i.label, funcs='BUint / and % (div_rem_unchecked, div_rem_digit, basecase_div_rem)', bound=bnd + '; postcondition n = q*d + r, r < d', core=small, mem_gb=(8 if tier == 'quick' else 20)))
         for pn, pargs, pf in PARTS:
             add(H('C03', f"c03_u_proj{pn}{g}{pth}_{i.tag}", 'c03_u_proj', f"{i.n + 3}, {i.U}, {i.digit}, {i.n}, {gen}, {path}, {pargs}", tier=tier if small else 'thorough',
-                  cap=cap if small else max(cap, 3600), inst=i.label, funcs='BUint ' + pf + ' relative to / and %', bound=bnd, core=False, mem_gb=28))
+                  cap=cap if small else max(cap, 3600), inst=i.label, funcs='BUint ' + pf + ' relative to / and %', bound=bnd, core=False, mem_gb=(8 if tier == 'quick' else 20)))
     if signed and path == 'all':
         add(H('C03', f"c03_i_main{g}_{i.tag}", 'c03_i_main', f"{i.n + 2}, {i.I}, {i.digit}, {i.n}, {gen}, {_x(i, True)}", tier=tier, cap=cap, inst=i.label,
-              funcs='BInt / and % (sign handling around the unsigned algorithm)', bound=bnd + ' except MIN / -1; postcondition with the sign rule', core=small, mem_gb=28))
+              funcs='BInt / and % (sign handling around the unsigned algorithm)', bound=bnd + ' except MIN / -1; postcondition with the sign rule', core=small, mem_gb=(8 if tier == 'quick' else 20)))
         for pn, pargs, pf in IPARTS:
             add(H('C03', f"c03_i_proj{pn}{g}_{i.tag}", 'c03_i_proj', f"{i.n + 3}, {i.I}, {i.digit}, {i.n}, {gen}, {pargs}", tier=tier if small else 'thorough',
-                  cap=cap if small else max(cap, 3600), inst=i.label, funcs='BInt ' + pf, bound=bnd, core=False, mem_gb=28))
+                  cap=cap if small else max(cap, 3600), inst=i.label, funcs='BInt ' + pf, bound=bnd, core=False, mem_gb=(8 if tier == 'quick' else 20)))
 
 
 for i, tier, cap in ((I(8, 3), 'thorough', 7200), (I(8, 4), 'thorough', 10800), (I(16, 3), 'thorough', 10800)):
